@@ -47,3 +47,23 @@ pub open spec fn wrapped(body: Expr, cs: Seq<Column>, n: int, body0: Expr) -> bo
     else if is_var_col(cs[n - 1]) { exists|inner: Expr| #[trigger] binds_col(body, cs[n - 1], inner) && wrapped(inner, cs, n - 1, body0) }
     else { wrapped(body, cs, n - 1, body0) }
 }
+
+// ---- head of compile_rows: the two base cases of match compilation ----
+#[verifier::external_body] pub struct CoreExpr { _p: u64 }           // core::Expr
+#[verifier::external_body] pub struct GlobalTypeEnv { _p: u64 }
+#[verifier::external_body] pub struct Gensym { _p: u64 }
+#[verifier::external_body] pub struct Diagnostics { _p: u64 }
+#[verifier::external_body] #[derive(Clone, Copy)] pub struct TextRange { _p: u64 }
+pub uninterp spec fn missing_of(ty: Ty) -> CoreExpr;                  // the call to the runtime's `missing` (the program fails there)
+pub uninterp spec fn core_of(e: Expr) -> CoreExpr;                    // compile_expr's result
+#[verifier::external_body] pub fn emissing(ty: &Ty) -> (r: CoreExpr) ensures r == missing_of(*ty) { unimplemented!() }
+#[verifier::external_body]
+pub fn compile_expr(e: &Expr, genv: &GlobalTypeEnv, gensym: &Gensym, diagnostics: &mut Diagnostics) -> (r: CoreExpr) ensures r == core_of(*e) { unimplemented!() }
+// everything compile_rows does once neither base case applies (choice of the branch variable, splitting per constructor ...): not verified
+#[verifier::external_body]
+pub fn compile_rows_rest(genv: &GlobalTypeEnv, gensym: &Gensym, diagnostics: &mut Diagnostics, rows: Vec<Row>, ty: &Ty, match_range: Option<TextRange>) -> (r: CoreExpr)
+{ unimplemented!() }
+// what move_variable_patterns (verified above) does to one row
+pub open spec fn moved(o: Row, n: Row) -> bool {
+    n.columns@ == kept_cols(o.columns@, o.columns@.len() as int) && wrapped(n.body, o.columns@, o.columns@.len() as int, o.body)
+}
